@@ -21,7 +21,7 @@ CHECK_DEADLOCK FALSE
 INVARIANTS %s
 """
 INVS = ["ArtefactsAgree", "VocabularyMatchesGrammar", "RuleBodiesMatchATN", "ListenerCallbacksExist",
-        "ParserSkeletonsAgree", "ContextsCarryTheirRule", "GeneratedListenersMatchRules", "ConstantsNumberTheVocabulary"]
+        "ParserSkeletonsAgree", "ContextsCarryTheirRule", "GeneratedListenersMatchRules", "ConstantsNumberTheVocabulary", "LexerGrammarAsTranscribed"]
 
 # ---- the generated recursive-descent code, read as text: one "skeleton" per package
 GEN = {"go": ("pkg/go/gen/openfga_parser.go", ["pkg/go/gen/openfgaparser_listener.go", "pkg/go/gen/openfgaparser_base_listener.go"]),
@@ -115,6 +115,17 @@ def explain(recs, inv):
                 got = {(p[0], p[1]) for p in c["pairs"]}
                 if got != want:
                     out.append("%s %s: exported constants differ from the vocabulary numbering: constants-only %s vocabulary-only %s" % (c["lang"], a, sorted(got - want)[:6], sorted(want - got)[:6]))
+    elif inv == "LexerGrammarAsTranscribed":
+        import re
+        got = next(r for r in recs if r["kind"] == "lexerrules")["list"]
+        spec = open(os.path.join(VERIF, "spec", "LexerRules.tla")).read()
+        want = [(m.group(1), json.loads(m.group(2))) for m in re.finditer(r'<<"([A-Z_]+)", ("(?:[^"\\]|\\.)*")>>', spec)]
+        for i in range(max(len(got), len(want))):
+            g = tuple(got[i]) if i < len(got) else None
+            w = want[i] if i < len(want) else None
+            if g != w:
+                out.append("lexer rule %d: the grammar has %s, spec/LexerRules.tla transcribes %s" % (i + 1, g, w))
+                break
     elif inv == "VocabularyMatchesGrammar":
         for a in ("lexer", "parser"):
             g = next(r for r in recs if r["kind"] == "grammar" and r["artefact"] == a)
@@ -223,16 +234,20 @@ def run(pid, tier):
                               {"text": r["text"], "observed": p})
             elif chk_dsl.clean_model(p["m"]) != chk_dsl.expected_model(r["m"]):
                 chk.violation("the Go parser builds a different tree than the grammar prescribes for a keyword-named identifier", {"text": r["text"], "parsed": chk_dsl.clean_model(p["m"]), "expected": chk_dsl.expected_model(r["m"])})
+        # ... and the lexer: every token the Go lexer produces for the keyword documents, the DSL fixtures of the repository and a corpus
+        # of CEL bodies (string forms, escapes, numbers, comments, texts the lexer cannot finish) is the token the rules of OpenFGALexer.g4
+        # - transcribed in spec/Lexer.tla, the transcription compared with the .g4 by LexerGrammarAsTranscribed - prescribe at that step
+        chk_dsl.lexer_validate(chk, binary, sc, chk_dsl.lexer_corpus() + [{"id": r["id"], "text": r["text"]} for r in lrecs.values()], "fixtures, CEL corpus, keyword documents", verdict=True)
         lx = next(r for r in recs if r["kind"] == "replica" and r["artefact"] == "lexer" and r["lang"] == "go")
         px = next(r for r in recs if r["kind"] == "replica" and r["artefact"] == "parser" and r["lang"] == "go")
         chk.cov.update(explanation="TLC compared the recorded configuration state of the three packages: lexer ATN (%d ints), parser ATN (%d ints), %d + %d rule names, vocabularies, 6 .interp and 6 .tokens files, "
                                    "the declarations of the two .g4 files, per-rule reference sets of %d parser rules read from the Go ATN, %d listener callbacks; behavioural half for Go: %d rendered documents with "
-                                   "each of 6 keywords in each identifier position were parsed by the Go parser and compared with the model written" % (
-                                       len(lx["atn"]), len(px["atn"]), len(lx["rules"]), len(px["rules"]), len(px["rules"]), len(next(r for r in recs if r["kind"] == "callbacks")["names"]), len(jobs)),
+                                   "each of 6 keywords in each identifier position were parsed by the Go parser and compared with the model written; %d tokens of the Go lexer validated against the lexer automaton of spec/Lexer.tla" % (
+                                       len(lx["atn"]), len(px["atn"]), len(lx["rules"]), len(px["rules"]), len(px["rules"]), len(next(r for r in recs if r["kind"] == "callbacks")["names"]), len(jobs), chk.cov.get("lexer_tokens_validated", 0)),
                        evaluations=len(INVS) + len(jobs), distinct_nontrivial=len(INVS) + len({r["text"] for r in lrecs.values()}), states=states + lay.distinct,
                        samples=[{"invariants": INVS}, {"keyword_document": lrecs["K40"]["text"]}])
         chk.assumptions += ["JS and Java runtimes are not installed: for them 'accept the same texts' rests on equality of the serialized automata",
-                            "no ANTLR tool offline: grammar -> ATN is compared at the level of rule / token vocabularies and per-rule reference sets, not every conceivable body edit"]
+                            "no ANTLR tool offline: grammar -> ATN is compared at the level of rule / token vocabularies and per-rule reference sets for the parser; for the lexer through the text of every rule (LexerGrammarAsTranscribed) and the behaviour of the Go lexer on recorded documents (spec/Lexer.tla)"]
         return chk.finish()
     finally:
         sc.cleanup()
